@@ -127,6 +127,25 @@ CHECKS = {
         note="Bytes compared through a hash; proof bytes are not deterministic (OsRng blinding), so cross checks compare verdicts.",
         technique="TLA+/TLC model checking of Lifecycle + trace validation of recorded lifecycle events",
     ),
+    "C18": dict(
+        category="model_checking",
+        text=("Zkir.tla is the IR as a generator-with-oracle: six value types, seventeen operations, arity table, typing "
+              "rules, failure conditions (assertions, BigUint underflow, byte-conversion ranges, zero modulus), memory of "
+              "named values, constants in every surface form, Publish. TLC checks all programs of <= 2 instructions "
+              "exhaustively and, in simulation, grows longer straight-line programs with witnesses from boundary menus "
+              "and ill-formed variants (wrong arity, ill-typed operands and witnesses, unknown / duplicate names), "
+              "printing each finished program with the outcome the model derives. A stratified sample runs through the "
+              "real loader (from_instructions + JSON and bincode round trips), the off-circuit evaluator and the "
+              "compiled circuit under MockProver, where the values the circuit itself binds to the instance column are "
+              "extracted from its copy constraints: Zkir_Trace requires values never panics, success => circuit "
+              "satisfiable exactly with encode(P) (self-exposed values equal encode(P), single-position edits "
+              "unsatisfiable), failure => circuit unsatisfiable even with its own exposed values, and the model's verdict."),
+        design_ref="DESIGN.md 4/C18",
+        note=("Points, scalars and digests are opaque in the model (verdict 'any': only agreement is required); "
+              "satisfiability judged by MockProver; one open known finding (ill-typed programs panic when the circuit "
+              "is built)."),
+        technique="TLA+/TLC exhaustive + simulation-generated IR programs replayed off-circuit and in-circuit, validated by a trace spec",
+    ),
 }
 
 NOT_YET = {
